@@ -3,6 +3,7 @@ package harness
 import (
 	"fmt"
 	"strings"
+	"sync/atomic"
 	"testing"
 	"testing/synctest"
 	"time"
@@ -38,8 +39,15 @@ func clientKeytab() (*keytab.Keytab, string) {
 	return cliKeytabV, cliKeytabToks
 }
 
+// every second configuration asks for name canonicalization (the request then carries the canonicalize option: what
+// a reply has to say to be the answer to it stays the same)
+var c09Configs int64
+
 func c09Config(skew time.Duration, port int) *config.Config {
 	s := fmt.Sprintf("[libdefaults]\n default_realm = %s\n dns_lookup_kdc = false\n udp_preference_limit = 1\n clockskew = %d\n noaddresses = true\n", c09Realm, int(skew/time.Second))
+	if atomic.AddInt64(&c09Configs, 1)%2 == 0 {
+		s += " canonicalize = true\n"
+	}
 	if port != 0 {
 		s += fmt.Sprintf("[realms]\n %s = {\n  kdc = 127.0.0.1:%d\n }\n OTHER.REALM = {\n  kdc = 127.0.0.1:%d\n }\n", c09Realm, port, port)
 	}
